@@ -3,7 +3,7 @@ from fractions import Fraction as Fr
 import itertools
 from symnp import core
 from symnp.core import band, bor, bnot, iff, implies
-from .common import POOL, TINY, slice_points
+from .common import POOL, TINY, slice_points, get_curve, random_curves
 from .rdpstubs import Stubs, patched, tagged_points, well_formed, STUB_DOC
 
 PROPERTY = 'C05'
@@ -98,7 +98,7 @@ def run(h, case):
                     return sum(d)
                 return Fr(1, 2) * (b - a) * h.np.array(d).max()      # tagged points: |P_a P_b| is the index gap
             return check_chain(h, pts, n, dist_enum, order_enum, D, score)
-    X, Y = slice_points(h, POOL[case['curve']], case['pos'])
+    X, Y = slice_points(h, get_curve(case['curve']), case['pos'])
     n = len(X)
     pts = h.argument(h.array([[a, b] for a, b in zip(X, Y)]))
     lf = h.L.linear_fit
@@ -123,6 +123,13 @@ def run(h, case):
     sig = check_chain(h, pts, n, dist_enum, order_enum, D, score)
     h.prove(not h.writes(), 'arguments unmodified')
     return sig
+
+
+def realise(case, rnd):
+    """concretiser for abstract counterexamples: the fixed-size chain on small random integer curves"""
+    n = case['n']
+    for curve in random_curves(n, rnd, 80):
+        yield dict(layer='L0', fn='chain', curve=curve, pos=[], distance=case['distance'], order=case['order'], realised_from=dict(n=n)), {}
 
 
 LEVEL_TEXT = ('Bounded symbolic model checking. L1: the real rdp_fixed/_rdp_fixed/order_* run over kernel stubs that are free non-negative solver variables; the '
